@@ -38,13 +38,16 @@ class ClientRecvIterator(Iterator[_T_ReceivedPacket]):
         self.__timeout: float | None = timeout
 
     def __next__(self) -> _T_ReceivedPacket:
+        elapsed = _utils.ElapsedTime()
         try:
-            with _utils.ElapsedTime() as elapsed:
+            with elapsed:
                 packet = self.__client.recv_packet(timeout=self.__timeout)
         except OSError as exc:
             raise StopIteration from exc
-        if self.__timeout is not None:
-            self.__timeout = elapsed.recompute_timeout(self.__timeout)
+        finally:
+            # The time spent is charged to the budget whatever the outcome (e.g. a parse error which the caller skips).
+            if self.__timeout is not None:
+                self.__timeout = elapsed.recompute_timeout(self.__timeout)
         return packet
 
 
@@ -64,10 +67,13 @@ class AsyncClientRecvIterator(AsyncIterator[_T_ReceivedPacket]):
         self.__backend = client.backend()
 
     async def __anext__(self) -> _T_ReceivedPacket:
+        elapsed = _utils.ElapsedTime()
         try:
-            with self.__backend.timeout(self.__timeout), _utils.ElapsedTime() as elapsed:
+            with self.__backend.timeout(self.__timeout), elapsed:
                 packet = await self.__client.recv_packet()
         except OSError as exc:
             raise StopAsyncIteration from exc
-        self.__timeout = elapsed.recompute_timeout(self.__timeout)
+        finally:
+            # The time spent is charged to the budget whatever the outcome (e.g. a parse error which the caller skips).
+            self.__timeout = elapsed.recompute_timeout(self.__timeout)
         return packet
